@@ -141,3 +141,47 @@ Proof.
   revert l; induction y as [|y IH]; intros l; [reflexivity|].
   destruct l as [|a l]; [rewrite !skipn_nil; reflexivity|]. cbn [skipn plus]. apply IH.
 Qed.
+
+(* ---------- the prototype's sort is a sort ---------- *)
+From Coq Require Import Sorting.Permutation Sorting.Sorted.
+
+Lemma insert_perm (x: Z) l : Permutation (x :: l) (insert_by Z.leb x l).
+Proof.
+  induction l as [|y l IH]; cbn [insert_by]; [apply Permutation_refl|].
+  destruct (Z.leb x y); [apply Permutation_refl|].
+  eapply perm_trans; [apply perm_swap|]. apply perm_skip. exact IH.
+Qed.
+
+Theorem zsort_perm l : Permutation l (zsort l).
+Proof.
+  induction l as [|x l IH]; [apply perm_nil|].
+  change (zsort (x :: l)) with (insert_by Z.leb x (zsort l)).
+  eapply perm_trans; [apply perm_skip; exact IH|]. apply insert_perm.
+Qed.
+
+Lemma insert_sorted (x: Z) l : LocallySorted Z.le l -> LocallySorted Z.le (insert_by Z.leb x l).
+Proof.
+  induction 1 as [|y|y z l Hs IH Hyz]; cbn [insert_by].
+  - constructor.
+  - destruct (Z.leb_spec x y); constructor; try constructor; lia.
+  - destruct (Z.leb_spec x y).
+    + constructor; [constructor; assumption|assumption].
+    + cbn [insert_by] in IH. destruct (Z.leb_spec x z).
+      * constructor; [exact IH|lia].
+      * constructor; [exact IH|exact Hyz].
+Qed.
+
+Theorem zsort_sorted l : LocallySorted Z.le (zsort l).
+Proof.
+  induction l as [|x l IH]; [constructor|].
+  change (zsort (x :: l)) with (insert_by Z.leb x (zsort l)). apply insert_sorted. exact IH.
+Qed.
+
+(* ---------- valueless scalars ---------- *)
+Lemma scalar_valueless_raises {A} (f: Z -> A) (g: Z -> Z -> A) (y: scalar) :
+  scalar_unop None f = Err ELib /\ scalar_binop None y g = Err ELib /\ scalar_binop y None g = Err ELib.
+Proof. repeat split; destruct y; reflexivity. Qed.
+
+Lemma scalar_value_computes {A} (f: Z -> A) (g: Z -> Z -> A) x y :
+  scalar_unop (Some x) f = Ok (f x) /\ scalar_binop (Some x) (Some y) g = Ok (g x y).
+Proof. split; reflexivity. Qed.
